@@ -1,7 +1,3 @@
 package main
 
-import "math/rand"
-
-func caseC16(r *rand.Rand, cw *CalcWriter, label string, maxT int) {}
-
-func replayCalcExtra3(cw *CalcWriter, c *calcCase, label string, k int) {}
+func replayCalcExtra4(cw *CalcWriter, c *calcCase, label string, k int) {}
